@@ -2387,10 +2387,32 @@ func (c *compiler) initNestedImports(stmt ast.Statement) {
 	if _, isImport := stmt.(*ast.ImportStmt); isImport {
 		return
 	}
-	ast.VisitNode(ast.ImportStmtVisitorFunc(func(imprt *ast.ImportStmt) ast.VisitResult {
-		c.initImportedModules(imprt)
-		return ast.VisitRecurse
-	}), stmt, nil)
+	ast.VisitNode(nestedImportVisitor{c}, stmt, nil)
+}
+
+// visits the import statements nested in a statement for initNestedImports
+type nestedImportVisitor struct{ c *compiler }
+
+var (
+	_ ast.ImportStmtVisitor = nestedImportVisitor{}
+	_ ast.FuncDeclVisitor   = nestedImportVisitor{}
+)
+
+func (nestedImportVisitor) Visitor() {}
+
+func (v nestedImportVisitor) VisitImportStmt(imprt *ast.ImportStmt) ast.VisitResult {
+	v.c.initImportedModules(imprt)
+	return ast.VisitRecurse
+}
+
+// the body of a forward declared function is its later definition:
+// the function may be called before that definition is reached,
+// so the modules it imports are initialised at the declaration already
+func (v nestedImportVisitor) VisitFuncDecl(decl *ast.FuncDecl) ast.VisitResult {
+	if ast.IsForwardDecl(decl) {
+		ast.VisitNode(v, decl.Def.Body, nil)
+	}
+	return ast.VisitRecurse
 }
 
 // declares the module_init/module_dispose functions of all modules imported by s
